@@ -576,12 +576,27 @@ def cap_steps(checker):
     return checker
 
 
+# the caller's own list objects: it fills ONE list with the name of the moment, asks, and rewrites the same object for the
+# next question (every other call; the other calls hand over a fresh list).  A name is its contents at the time of the call.
+_CALLER_BUFS = {'m': [], 'p': [], 'k': []}
+_CALL_NO = [0]
+
+
+def _caller_list(slot, name):
+    _CALL_NO[0] += 1
+    if _CALL_NO[0] % 2:
+        return list(name)
+    buf = _CALLER_BUFS[slot]
+    buf[:] = list(name)
+    return buf
+
+
 def impl_match(checker, name):
     """list(Checker.match(name)) canonicalised with tag numbers: (outs, exception class or None)"""
     inv = checker._symbol_inverse
     outs = []
     try:
-        for rule_names, ctx in checker.match(list(name)):
+        for rule_names, ctx in checker.match(_caller_list('m', name)):
             c = sorted([inv[k] if k in inv else int(k), bytes(v).hex()] for k, v in ctx.items())
             outs.append([list(rule_names), c])
         return outs, None
@@ -593,7 +608,7 @@ def impl_match(checker, name):
 
 def impl_check(checker, pkt, key):
     try:
-        return bool(checker.check(list(pkt), list(key)))
+        return bool(checker.check(_caller_list('p', pkt), _caller_list('k', key)))
     except StepCap:
         return 'NONTERMINATION'
     except Exception as e:          # noqa
